@@ -765,18 +765,27 @@ func genScript(r *rand.Rand, tname string) (*tableSpec, []ddlStep) {
 		case 3:
 			k := r.Intn(len(t.Cols))
 			c := t.Cols[k]
+			if c.InExpr { // MySQL rejects dropping a column a generated column / check depends on (dolt accepts it and leaves a dangling expression)
+				continue
+			}
 			steps = append(steps, ddlStep{"drop-column", "alter table " + qid(t.Name) + " drop column " + qid(c.Name)})
 			if len(t.Cols) > 1 {
 				t.Cols = append(append([]*colSpec(nil), t.Cols[:k]...), t.Cols[k+1:]...)
 			}
 		case 4:
 			c := t.Cols[r.Intn(len(t.Cols))]
+			if c.InExpr {
+				continue
+			}
 			nn := fmt.Sprintf("r%d", seq)
 			steps = append(steps, ddlStep{"rename-column", "alter table " + qid(t.Name) + " rename column " + qid(c.Name) + " to " + qid(nn)})
 			c.Name = nn
 		case 5:
 			k := r.Intn(len(t.Cols))
 			c := t.Cols[k]
+			if c.InExpr {
+				continue
+			}
 			nc := genCol(r, c.Name, false)
 			steps = append(steps, ddlStep{"modify-column", "alter table " + qid(t.Name) + " modify column " + qid(c.Name) + " " + nc.DDL})
 			t.Cols[k] = nc
